@@ -1955,12 +1955,12 @@ class HDKey(Key):
     @property
     def fingerprint(self):
         """
-        Get key fingerprint: the last for bytes of the hash160 of this key.
+        Get key fingerprint: the first four bytes of the hash160 of the compressed public key (BIP32).
 
         :return bytes:
         """
 
-        return self.hash160[:4]
+        return hash160(self.public_compressed_byte)[:4]
 
     @staticmethod
     def _bip38_decrypt(encrypted_privkey, password, network=DEFAULT_NETWORK, witness_type=DEFAULT_WITNESS_TYPE):
